@@ -49,6 +49,16 @@ CHECKS = {
              "DimensionalityError. Sampling (thousands of cases per run), no exhaustive sub-domain.",
         note="Units with non-rational or negative factors are excluded from exact/ordering clauses; Quantity == Unit (as opposed to Unit == Quantity) is outside the statement.",
         design="5/C05"),
+    "C06": dict(
+        technique="Hypothesis over all ordered pairs of temperature-like units (bundled + generated rational offset units) x operators x registry modes against a reference model of the documented offset calculus and the exact affine maps from an independent definition reader; defining log maps for logarithmic units; functional-vs-in-place differential on ndarrays",
+        text="Conversions among absolute, offset and delta temperature units (incl. 3 generated units with rational scale/offset) are compared exactly (Fraction "
+             "registry) with the affine/scale maps, offset<->delta must raise DimensionalityError, all entry points and inverses agree. +, -, *, /, ** with "
+             "quantities and numbers in both orders and both autoconvert modes must give exactly the unit and value of the reference model (A/O/D kinds, written "
+             "from nonmult.rst) or OffsetUnitCalculusError. ndarray in-place forms must equal the functional forms and leave the other operand untouched; "
+             "compound units containing an offset unit never convert to another dimension. Log units are checked against x_lin = scale*base**(x/factor), "
+             "inverses, scalar vs in-place array conversion, and well-formedness of arithmetic results. Sampling over a small finite unit set x random magnitudes.",
+        note="Arithmetic on logarithmic units is documented only through conversions: validity predicate, one known finding (delta_<log unit> undefined).",
+        design="5/C06"),
     "C07": dict(
         technique="bounded-exhaustive enumeration of expression trees x spelling variants with a Python-operator evaluation of the tree as oracle; Hypothesis larger trees in float/Decimal/Fraction registries; mutation-based malformed inputs; audit-hook monitored parsing of hostile and random strings",
         text="Every tree with <= 3 leaves (<= 4 in thorough) over {2,3,m,s} x {+,-,*,/,//,**} with one optional unary minus is rendered with exactly the "
